@@ -277,7 +277,9 @@ class StateMatrix:
         sm.kvalue = kwargs.pop("kvalue", self.kvalue)
         sm.tvalue = kwargs.pop("tvalue", self.tvalue)
         sm.options = {**self.options, **kwargs}
-        sm.system = self.system
+        # the copy owns its system arrays too (they were shared with the original)
+        sm.system = self.system.copy()
+        coll._linked = {sm.system}
         return sm
 
     def resize(self, nstate):
